@@ -55,6 +55,7 @@ class Function:
     compiled: bool = False
     nlines: int = 0
     src_line: int = 0
+    crate: str = ''
 
 
 # ---------------------------------------------------------------- helpers
@@ -195,6 +196,7 @@ def parse_signature(sig):
 _SPAN_RE = re.compile(r'^(.*?)\s*// (?:in scope|scope|return place in scope) \d+ at (.*)$')
 
 CONSTS = {}          # simple `const NAME: T = const V;` items
+ALLOC_STATICS = {}   # allocN -> name of the static item it is the memory of
 
 
 def parse_dump(text, crate=''):
@@ -202,6 +204,8 @@ def parse_dump(text, crate=''):
     funcs = {}
     for m in re.finditer(r'^const ([\w:<> ]+?): ([\w\[\]; &\']+) = const (.+);$', text, re.M):
         CONSTS.setdefault(m.group(1), (m.group(3), m.group(2)))
+    for m in re.finditer(r'^(alloc\d+) \(static: ([^,]+), size', text, re.M):
+        ALLOC_STATICS[(crate, m.group(1))] = m.group(2)
     lines = text.split('\n')
     i, n = 0, len(lines)
     while i < n:
@@ -233,7 +237,7 @@ def parse_dump(text, crate=''):
             kind = 'const' if line.startswith('const') else 'static'
         else:
             i += 1; continue
-        f = Function(name, params, ret, {}, {}, i + 1, kind=kind)
+        f = Function(name, params, ret, {}, {}, i + 1, kind=kind, crate=crate)
         for loc, ty in params:
             f.locals[loc] = ty
         start = i
